@@ -139,6 +139,7 @@ func Harness_C08_run() {
 	close(ch2.in)
 	st2 := s.WaitStatus()
 	vassert(st2.Closed, "C08: the restarted server stops cleanly")
+	vassert(liveThreads() == "", "C08: no goroutine is left behind")
 	reach("restarted")
 }
 
